@@ -58,7 +58,7 @@ CLAIMS = {
 CLAIMS["C18"] = ("Config::get_pg_config (real body, extracted) against a setter/getter model of tokio_postgres::Config: one labelled clause per field - scalar options override the URL value, "
             "hosts / hostaddrs / ports are the URL's followed by the singular then the plural field (loop invariants, unbounded), default socket directories only when no host is given, empty "
             "user/dbname count as unset, DbnameMissing / DbnameEmpty / InvalidUrl exactly; the four enum conversions are checked against their expected mapping; panic freedom; get_pool_config passes the pool section through.",
-            "DESIGN.md 5/C18", "tokio_postgres::Config is a trusted model (URL parsing is an uninterpreted function); builder/create_pool/get_manager_config are under contract too (the manager gets the translated configuration, pool and manager sections reach the pool, timeouts without a runtime are a build error; PoolBuilder through the contracts proved in unit mg); the environment variable USER is arbitrary. ")
+            "DESIGN.md 5/C18", "tokio_postgres::Config is a trusted model (URL parsing is an uninterpreted function); builder/create_pool/get_manager_config are under contract too (the manager gets the translated configuration, pool and manager sections reach the pool, timeouts without a runtime are a build error; the real PoolBuilder functions are extracted here too, only Pool::from_builder is used through the contract proved in unit mg); the environment variable USER is arbitrary. ")
 
 CLAIMS["C17"] = ("redis Manager::recycle (real body, extracted; the builder chain of redis::Pipeline modelled with prophecy-style &mut Self contracts): the pipeline sent is exactly [UNWATCH (reply ignored), PING <n>] with "
             "n the decimal of the pre-increment ping_number, ping_number is used once, Ok iff the echo equals n, an error reply is reported as Backend error, any other echo is rejected, cancellation unwinds.",
@@ -69,7 +69,7 @@ CLAIMS["C19"] = ("all three flavours (units rdc, rdk, rds; real bodies): Config:
             "the twelve From conversions between deadpool's and the redis crate's ConnectionAddr / RedisConnectionInfo / ConnectionInfo / SentinelServerType / TlsMode / SentinelNodeConnectionInfo (type definitions extracted from the registry source) are checked field-wise against their expected mapping, "
             "with the round-trip lemmas proved; sentinel Config::default; PoolConfig / Timeouts / QueueMode constructors give the documented defaults.",
             "DESIGN.md 0.4, 5/C19", "NOT covered: the serde round trip of PoolConfig/Timeouts/QueueMode (code generated by derive macros: no function of /repo to put under contract). URL parsing is inside the redis crate (arbitrary result); ClusterClientBuilder and SentinelClient::build are trusted models; "
-            "Pool::builder/config/runtime/build are used through the contracts proved in unit mg (cross-unit assumption). ")
+            "Pool::builder and PoolBuilder::{new,config,runtime,build} are extracted and proved in these units too; only Pool::from_builder is used through the contract proved in unit mg (cross-unit assumption). ")
 
 CLAIMS["C15"] = ("the three recycle functions of the SyncWrapper-based managers (r2d2, sqlite, diesel; real bodies, the closure given to interact() run inline) and diesel's perform_recycle_check: a poisoned wrapper is rejected "
             "before any interaction; r2d2: has_broken => rejected, is_valid error => Backend error, Ok only after both checks passed; sqlite: Ok only if the fresh counter value is echoed; diesel: a broken transaction manager is rejected "
